@@ -2372,6 +2372,11 @@ def dressed_value_cases():
             for x in dress_value(v):
                 q = pairs[:i] + [(k, x)] + pairs[i + 1:]
                 out.append(("tag:" + name, head + ":" + ",".join("%s=%s" % kv for kv in q) + tail))
+            # the attribute once more with another (valid-looking or empty) value: in front, directly behind, at the end
+            alts = [v + "0" if v[-1:].isdigit() else (v[:-1] + 'z"' if v.endswith('"') and len(v) > 2 else v), '""' if v.startswith('"') else "NONE", v]
+            for x in dict.fromkeys(alts):
+                for q in ([(k, x)] + pairs, pairs[:i + 1] + [(k, x)] + pairs[i + 1:], pairs + [(k, x)]):
+                    out.append(("tag:" + name, head + ":" + ",".join("%s=%s" % kv for kv in q) + tail))
     hdr = {"#EXT-X-TARGETDURATION": "10", "#EXT-X-MEDIA-SEQUENCE": "5", "#EXT-X-DISCONTINUITY-SEQUENCE": "2", "#EXT-X-VERSION": "3", "#EXT-X-PLAYLIST-TYPE": "VOD"}
     for tag, v in hdr.items():
         for x in dress_value(v):
@@ -3170,7 +3175,7 @@ PROPS["C14"] = {
     "nontrivial": lambda c, a: True,
     "rule": "exhaustive over presence/absence of each tag's attributes and over each enumerated attribute's value set plus one invalid value: EXT-X-MEDIA (6 TYPE cases x URI x GROUP-ID x NAME x DEFAULT/AUTOSELECT/FORCED in {absent,YES,NO[,invalid]} x INSTREAM-ID in {absent,CC1,SERVICE7,invalid}) as text, through the enclosing master playlist and through ExtXMediaBuilder; EXT-X-DATERANGE (ID, CLASS, START-DATE, END-DATE, DURATION in {absent,1.5,-1,nan}, PLANNED-DURATION, END-ON-NEXT in {absent,YES,NO}, client attribute names valid/lowercase/non-ASCII/underscore) as text and through the builder; EXT-X-SESSION-DATA 2^4 as text, in a master playlist and through the builder; EXT-X-KEY / EXT-X-SESSION-KEY (METHOD x URI x 6 IV spellings x 7 KEYFORMATVERSIONS spellings); stream tags; EXT-X-START; every value and some non-values of every enumerated type; every case counts; every string attribute of SESSION-DATA / MEDIA / DATERANGE absent, with content, empty, blank (text in both orders, builders); key URIs blank in the Unicode sense (12 blank, 6 non-blank strings) as text and through the builder",
     "exhaustive": True,
-    "explanation": "theorems: media_build_ok_iff / media_parse_ok_iff (ExtXMediaBuilder::validate + required fields = the property's rules, for ALL builder states; the text parser ends in the same table), dateRange_finish_ok_iff, dateRange_end_on_next, duration_text_rejected, duration_special_rejected, client_attribute_name_rejected, sessionData_finish_ok_iff, decryptionKey_finish_ok_iff, decryptionKey_uri_nonempty, method_values, iv_syntax, versions_capacity, streamData_finish_ok_iff, iframe_needs_uri, yes_no_values, start_needs_time_offset; the two builders without validation are stated as _partial with counterexample theorems (K6); oracle: the property's rules written independently in Python per generated attribute subset",
+    "explanation": "enumerated values: mediaType_values / hdcpLevel_values / inStreamId_values / method_values / yes_no_values / dateRange_end_on_next (a value is accepted only if it IS one of the table's names) and enum_quote_rejected (a quote anywhere in an enumerated value means rejection; enum_names_bare by decide over the tables regenerated from the source); theorems: media_build_ok_iff / media_parse_ok_iff (ExtXMediaBuilder::validate + required fields = the property's rules, for ALL builder states; the text parser ends in the same table), dateRange_finish_ok_iff, dateRange_end_on_next, duration_text_rejected, duration_special_rejected, client_attribute_name_rejected, sessionData_finish_ok_iff, decryptionKey_finish_ok_iff, decryptionKey_uri_nonempty, method_values, iv_syntax, versions_capacity, streamData_finish_ok_iff, iframe_needs_uri, yes_no_values, start_needs_time_offset; the two builders without validation are stated as _partial with counterexample theorems (K6); oracle: the property's rules written independently in Python per generated attribute subset",
     "assumptions": [],
 }
 
@@ -3854,6 +3859,22 @@ def c20_setter_twice():
                 two = ["%s %s" % (k, first), "push " + seg, "%s %s" % (k, second)] if where else ["%s %s" % (k, first), "%s %s" % (k, second), "push " + seg]
                 cases.append(mk("build_media", "\n".join(pre + two), group="setter-twice", meta={"twice": n}))
                 cases.append(mk("build_media", "\n".join(pre + ["%s %s" % (k, second), "push " + seg]), group="setter-twice", meta={"twice": n}))
+    # … the setters of the MASTER playlist builder
+    hm = lambda t: t.encode().hex()
+    m1, m2 = '#EXT-X-MEDIA:TYPE=AUDIO,GROUP-ID="g",NAME="a"', '#EXT-X-MEDIA:TYPE=AUDIO,GROUP-ID="g",NAME="b"'
+    v1, v2 = "#EXT-X-STREAM-INF:BANDWIDTH=1\nu", "#EXT-X-STREAM-INF:BANDWIDTH=2\nv"
+    d1, d2 = '#EXT-X-SESSION-DATA:DATA-ID="d",VALUE="1"', '#EXT-X-SESSION-DATA:DATA-ID="e",VALUE="2"'
+    k1, k2 = '#EXT-X-SESSION-KEY:METHOD=AES-128,URI="k"', '#EXT-X-SESSION-KEY:METHOD=AES-128,URI="l"'
+    MM = {"ind": ("1", "0"), "media": (hm(m1), hm(m2)), "media ": (hm(m1) + " " + hm(m2), hm(m2)), "variants": (hm(v1), hm(v2)), "variants ": (hm(v1) + " " + hm(v2), hm(v1)),
+          "sdata": (hm(d1), hm(d2)), "skeys": (hm(k1), hm(k2)), "unk": (hm("#EXT-X-FOO"), hm("#EXT-X-BAR"))}
+    for k, (a1, a2) in MM.items():
+        k = k.strip()
+        for first, second in ((a1, a2), (a2, a1)):
+            base = [] if k == "variants" else ["variants " + hm(v1)]
+            n += 1
+            cases.append(mk("build_master", "\n".join(base + ["%s %s" % (k, first), "%s %s" % (k, second)]), group="master-setter-twice", meta={"twice": n}))
+            cases.append(mk("build_master", "\n".join(["%s %s" % (k, first)] + base + ["%s %s" % (k, second)]), group="master-setter-twice", meta={"twice": n}))
+            cases.append(mk("build_master", "\n".join(base + ["%s %s" % (k, second)]), group="master-setter-twice", meta={"twice": n}))
     # … and the setters of the SEGMENT builder (number(None) after number(Some(n)) takes the explicit number back), with the segment
     # first, second or alone, handed over by push_segment or by segments(), under a media sequence of 0 or 5
     S = {"uri": (hx("b"), hx("c")), "dur": ("1000000000", "2000000000"), "num": ("1", "0"), "num ": ("7", "none"), "num  ": ("none", "1"), "num   ": ("0", "none"),
@@ -4290,7 +4311,7 @@ PROPS["C12"] = {
     "build": c12_build, "gate": {"status", "obs", "D", "A"}, "oracle": c12_oracle,
     "nontrivial": lambda c, a: a.startswith("ok") and c.meta.get("role") != "base",
     "rule": "accepted base texts (repository fixtures, generated media and master playlists) and, for each, single and composed transformations written independently of the model: attribute shuffle, unknown attributes, blanks around = and , , relative order of playlist-level tags, order of the non-key segment tags, comment lines, redundant EXT-X-VERSION tags, blank lines, line padding (ASCII and Unicode white space), CRLF, trailing white space / missing final newline; plus insertion of unknown #EXT tags; unknown attributes are mostly near misses of the tag's own attribute names (prefix / suffix added, other letter case) with values copied from the list or keywords, also in first and last place; non-trivial = accepted transformed text",
-    "explanation": "theorems (Props/C12.lean): media_neutral_lines / master_neutral_lines (comments, EXT-X-VERSION), media_rearrangement / master_rearrangement (any sequence of swaps of adjacent independent lines: playlist-level tags among each other and with segment tags, non-key segment tags among each other; mediaStep_comm is checked for all 23x23 line kinds), media_unknown_tags / master_unknown_tags, the closed forms of all eight attribute loops (Proofs/AttrFold.lean: every field is a function of the last value written for its name) giving *_attr_layout for MAP, DATERANGE incl. client attributes, START, MEDIA, SESSION-DATA, KEY incl. METHOD=NONE, SESSION-KEY, StreamData under AttrEquiv (permutation without repeated names, unknown attributes free), attrEquiv_padded via attrPairs_render (blanks around names, =, values and ,), media_lines_layout / master_lines_layout + lines_seen, crlf_irrelevant, blank_lines_irrelevant, line_padding_irrelevant, trailing_space_irrelevant (the complete string-level parsers depend on the text only through its trimmed non-empty lines). Tie: every base and every transformed text must give the same status and observation on library and model; oracle (implementation only): each transformed text parses to the observation of its original.",
+    "explanation": "theorems (Props/C12.lean): media_neutral_lines / master_neutral_lines (comments, EXT-X-VERSION), inf_position_irrelevant (EXTINF may stand anywhere among the KEY / MAP / BYTERANGE / DISCONTINUITY / PROGRAM-DATE-TIME / DATERANGE lines of its segment), media_rearrangement / master_rearrangement (any sequence of swaps of adjacent independent lines: playlist-level tags among each other and with segment tags, non-key segment tags among each other; mediaStep_comm is checked for all 23x23 line kinds), media_unknown_tags / master_unknown_tags, the closed forms of all eight attribute loops (Proofs/AttrFold.lean: every field is a function of the last value written for its name) giving *_attr_layout for MAP, DATERANGE incl. client attributes, START, MEDIA, SESSION-DATA, KEY incl. METHOD=NONE, SESSION-KEY, StreamData under AttrEquiv (permutation without repeated names, unknown attributes free), attrEquiv_padded via attrPairs_render (blanks around names, =, values and ,), media_lines_layout / master_lines_layout + lines_seen, crlf_irrelevant, blank_lines_irrelevant, line_padding_irrelevant, trailing_space_irrelevant (the complete string-level parsers depend on the text only through its trimmed non-empty lines). Tie: every base and every transformed text must give the same status and observation on library and model; oracle (implementation only): each transformed text parses to the observation of its original.",
     "assumptions": ["the transformations of the oracle stream are written in Python from RFC 8216 section 4, not taken from the model"],
 }
 
@@ -4674,8 +4695,33 @@ def c01_build(ctx):
     return cases
 
 
-def c01_oracle(ctx, cases, impl, model):
+def c01_long(ctx):
+    """playlists with more segments than a 16-bit or an 18-bit counter / cap holds (thorough: more than 2^20): every segment has to
+    come back, in order, with its number and URI. Implementation only (the Lean driver is not built for texts of this size); the
+    expectation is the text's own construction."""
     fails = []
+    sizes = [70000, 300000] if ctx.quick else [70000, 300000, 1100000]
+    for n in sizes:
+        for kind in ("plain", "keyed"):
+            body = "".join(('#EXT-X-KEY:METHOD=AES-128,URI="k%d"\n' % i if kind == "keyed" and i % 1000 == 0 else "") + "#EXTINF:1,\nu%d\n" % i for i in range(n))
+            for op in ("media", "media_fromstr"):
+                a = C.run_many(C.IMPL, [mk(op, "#EXTM3U\n#EXT-X-TARGETDURATION:10\n#EXT-X-MEDIA-SEQUENCE:7\n" + body + "#EXT-X-ENDLIST\n").line], jobs=1)[0]
+                obs = a.split(" ")[1] if a.startswith("ok ") else ""
+                got = obs.count("},{") + 1 if obs else 0
+                first = obs[obs.index("[{") + 2:].split(";", 1)[0] if "[{" in obs else None
+                last = obs[obs.rindex("},{") + 3:].split(";", 1)[0] if "},{" in obs else None
+                last_uri = obs.rsplit(";", 1)[-1].rstrip("]}") if obs else None
+                ok = a.startswith("ok ") and got == n and first == "7" and last == str(7 + n - 1) and last_uri == "s" + C.hx("u%d" % (n - 1))
+                if not ok:
+                    fails.append({"op": op, "payload": "#EXTM3U / TARGETDURATION:10 / MEDIA-SEQUENCE:7 / %d x (#EXTINF:1, + u<i>)%s / ENDLIST" % (n, " with a new key every 1000 segments" if kind == "keyed" else ""),
+                                  "implementation": a[:300], "what": "a playlist of %d segments came back with %s segments (first number %s, last number %s, last URI %s)" % (n, got, first, last, last_uri),
+                                  "law": "faithful", "segments": n})
+    ctx.features["long playlists (implementation only)"] = len(sizes) * 4
+    return fails
+
+
+def c01_oracle(ctx, cases, impl, model):
+    fails = c01_long(ctx)
     for c, a in zip(cases, impl):
         r = C.Resp(a)
         if r.status == "panic":
